@@ -88,6 +88,10 @@ static const Scenario kScenarios[] = {
             "in dd s2", "x y", { { "dd", "", 0, "ninja_dyndep_version = 1\nbuild out | out.imp: dyndep\n" }, { NULL } } },
   /* 38 */ { "dyndep_rule_level_restat", { RULES "rule mkdd\n  command = scan $in > $out\nrule ccdd\n  command = ccdd $in -o $out\n  dyndep = dd\nbuild dd: mkdd ddsrc\nbuild out: ccdd in || dd\nbuild other: cc s2\nbuild y: cc other out\n", NULL, NULL },
             "ddsrc in s2", "y", { { "dd", "", 0, "ninja_dyndep_version = 1\nbuild out: dyndep\n  restat = 1\n" }, { "out", "", KEEP_IF_SAME, NULL }, { NULL } } },
+  /* 39 */ { "stale_depfile_no_cycle", { RULES "build b: ccf a\nbuild b2: ccd a\nbuild all: phony b b2\n", RULES "build b: ccf a\n  command = cc -MD -O2 $in -o $out\nbuild b2: ccd a\n  command = cc -MD -O2 $in -o $out\nbuild c: cc b b2\nbuild d: cc c\nbuild all: phony d\n", NULL },
+            "a d", "all b", { { "b", "d@0", 0, NULL }, { "b2", "d@0", 0, NULL }, { NULL } } },
+  /* 40 */ { "phony_in_console_pool", { RULES "build p0: cc s1\nbuild ph: phony p0\n  pool = console\nbuild c1: cc s2 | ph\n  pool = console\nbuild c2: cc s3 | ph\n  pool = console\nbuild w: cc s4\nbuild top: cc c1 c2 w\n", NULL, NULL },
+            "s1 s2 s3 s4", "top", { { NULL } } },
 };
 #ifndef SCENARIO
 #define SCENARIO 0
